@@ -153,6 +153,123 @@ fn placements() -> Vec<Case> {
     out
 }
 
+
+// ---- exceptions that cross module frames: the importer catches what a module body, or a function
+// ---- defined in another module, threw, and then goes on using its own globals
+#[derive(Clone, Copy, Debug, PartialEq)]
+enum Fail {
+    Throw,
+    Missing,
+    Uncompilable,
+    Cycle,
+    Deep,
+    FnThrow,
+    FnImport,
+    FnFinally,
+}
+#[derive(Clone, Copy, Debug, PartialEq)]
+enum Guard {
+    CatchHere,
+    FnInTry,
+    FinallyThenCatch,
+}
+
+fn failing_module(fail: Fail, importer: &str) -> Vec<Stmt> {
+    let mut b = vec![print_stmt(s("load t")), var_stmt("name", s("t name")), fn_stmt(func("f", &[], vec![st(StmtKind::Return(Some(var("name"))))]))];
+    match fail {
+        Fail::Throw => b.push(st(StmtKind::Throw(bin(BinOp::Add, var("name"), s(" failed"))))),
+        Fail::Missing => b.push(st(StmtKind::Import("nowhere".into(), None))),
+        Fail::Uncompilable => b.push(st(StmtKind::Import("bad".into(), None))),
+        Fail::Cycle => b.push(st(StmtKind::Import(importer.into(), None))),
+        Fail::Deep => b.push(st(StmtKind::Import("u".into(), None))),
+        Fail::FnThrow => b.push(fn_stmt(func("boom", &[], vec![st(StmtKind::Throw(bin(BinOp::Add, var("name"), s(" boom"))))]))),
+        Fail::FnImport => b.push(fn_stmt(func("boom", &[], vec![st(StmtKind::Import("nowhere".into(), None)), st(StmtKind::Return(Some(var("nowhere"))))]))),
+        Fail::FnFinally => b.push(fn_stmt(func(
+            "boom",
+            &[],
+            vec![st(StmtKind::Try(vec![st(StmtKind::Throw(bin(BinOp::Add, var("name"), s(" fin"))))], None, Some(vec![print_stmt(bin(BinOp::Add, s("t finally sees "), var("name")))])))],
+        ))),
+    }
+    b.push(print_stmt(s("end of t")));
+    b
+}
+
+fn crossing_case(fail: Fail, guard: Guard, importer: &'static str) -> Case {
+    let calls_fn = matches!(fail, Fail::FnThrow | Fail::FnImport | Fail::FnFinally);
+    let mut attempt = vec![st(StmtKind::Import("t".into(), None))];
+    if calls_fn {
+        attempt.push(expr_stmt(invoke(var("t"), "boom", vec![])));
+    }
+    attempt.push(print_stmt(s("not reached")));
+    let handler = ("e".to_string(), vec![print_stmt(Expr::Interp(vec![Part::Lit(format!("{} caught ", importer)), Part::Expr(call(var("type"), vec![var("e")]))]))]);
+    let mut body = vec![print_stmt(s(&format!("load {}", importer))), var_stmt("name", s(&format!("{} name", importer)))];
+    match guard {
+        Guard::CatchHere => body.push(st(StmtKind::Try(attempt, Some(handler), None))),
+        Guard::FnInTry => {
+            attempt.push(st(StmtKind::Return(Some(num(1.0)))));
+            body.push(fn_stmt(func("attempt", &[], attempt)));
+            body.push(st(StmtKind::Try(vec![expr_stmt(call(var("attempt"), vec![]))], Some(handler), None)));
+        }
+        Guard::FinallyThenCatch => {
+            let fin = vec![print_stmt(bin(BinOp::Add, s("finally sees "), var("name"))), expr_stmt(assign("name", bin(BinOp::Add, var("name"), s(" (finally)"))))];
+            body.push(st(StmtKind::Try(vec![st(StmtKind::Try(attempt, None, Some(fin)))], Some(handler), None)));
+        }
+    }
+    // straight after the handler: read, define and assign globals, with no call in between
+    body.push(print_stmt(var("name")));
+    body.push(var_stmt("after", bin(BinOp::Add, var("name"), s(" after"))));
+    body.push(fn_stmt(func("describe", &[], vec![st(StmtKind::Return(Some(bin(BinOp::Add, bin(BinOp::Add, var("name"), s("/")), var("after")))))])));
+    body.push(expr_stmt(assign("name", s(&format!("{} renamed", importer)))));
+    body.push(print_stmt(call(var("describe"), vec![])));
+    body.push(st(StmtKind::Try(vec![print_stmt(var("f"))], Some(("e".into(), vec![print_stmt(call(var("type"), vec![var("e")]))])), None)));
+    if calls_fn && guard != Guard::FnInTry {
+        // t loaded and is bound here: nothing of ours landed in it
+        body.push(print_stmt(get(var("t"), "name")));
+        body.push(st(StmtKind::Try(vec![print_stmt(get(var("t"), "after"))], Some(("e".into(), vec![print_stmt(call(var("type"), vec![var("e")]))])), None)));
+        body.push(print_stmt(invoke(var("t"), "f", vec![])));
+    }
+    body.push(st(StmtKind::Import("ok".into(), None)));
+    body.push(print_stmt(get(var("ok"), "name")));
+    body.push(print_stmt(var("name")));
+    let mut modules = BTreeMap::new();
+    modules.insert("t".to_string(), ModuleSource { program: Some(failing_module(fail, importer)), compile_error: false });
+    modules.insert("u".to_string(), ModuleSource { program: Some(vec![print_stmt(s("load u")), var_stmt("name", s("u name")), st(StmtKind::Throw(s("u failed")))]), compile_error: false });
+    modules.insert("bad".to_string(), ModuleSource { program: None, compile_error: true });
+    modules.insert("ok".to_string(), ModuleSource { program: Some(module_body("ok", &[])), compile_error: false });
+    let main = if importer == "main" {
+        body
+    } else {
+        modules.insert(importer.to_string(), ModuleSource { program: Some(body), compile_error: false });
+        vec![
+            var_stmt("name", s("main name")),
+            st(StmtKind::Import(importer.into(), None)),
+            print_stmt(get(var(importer), "name")),
+            print_stmt(get(var(importer), "after")),
+            print_stmt(invoke(var(importer), "describe", vec![])),
+            print_stmt(var("name")),
+            st(StmtKind::Try(vec![print_stmt(var("after"))], Some(("e".into(), vec![print_stmt(call(var("type"), vec![var("e")]))])), None)),
+        ]
+    };
+    let mut c = Case::new("exception_crosses_module_frames", main);
+    c.modules = modules;
+    c
+}
+
+fn crossings() -> Vec<Case> {
+    let mut out = Vec::new();
+    for fail in [Fail::Throw, Fail::Missing, Fail::Uncompilable, Fail::Cycle, Fail::Deep, Fail::FnThrow, Fail::FnImport, Fail::FnFinally] {
+        for guard in [Guard::CatchHere, Guard::FnInTry, Guard::FinallyThenCatch] {
+            for importer in ["main", "a"] {
+                if fail == Fail::Cycle && importer == "main" {
+                    continue;
+                }
+                out.push(crossing_case(fail, guard, importer));
+            }
+        }
+    }
+    out
+}
+
 pub fn run(ctx: &Ctx) -> Report {
     let mut report = Report::new();
     let active = active_findings(ctx, &mut report);
@@ -160,7 +277,7 @@ pub fn run(ctx: &Ctx) -> Report {
     // quick: every graph whose module-to-module part is arbitrary and main imports a non-empty subset
     let total = 1usize << 12;
     let graphs = (0..total).filter(move |b| thorough || (b >> 9) != 0).map(graph_case);
-    let cases = placements().into_iter().chain(graphs);
+    let cases = placements().into_iter().chain(crossings()).chain(graphs);
     let hooks = Hooks {
         attribute: &|_c, _m, _o, _mm| None,
         nontrivial: &|c, m| c.modules.len() >= 2 && m.out.iter().filter(|l| l.starts_with("load ")).count() >= 2 || m.out.iter().any(|l| l.contains("failed")) || matches!(m.outcome, Outcome::Uncaught(_)),
@@ -170,10 +287,10 @@ pub fn run(ctx: &Ctx) -> Report {
     mcheck::fill_report(
         &mut report,
         &stats,
-        "every import graph over {main, a, b, c}: each of the 6 module-to-module edges, 3 self-loops and 3 edges from main independently present or absent (4096 graphs; the quick tier skips those where main imports nothing); every import inside a module sits in its own try/catch and is followed by a use; every module prints when its body runs, defines the same global names, and reads the built-ins; main reads, writes and calls through each module object, imports it again under an alias and compares identity, and probes that nothing leaked. Plus placements: import inside a function called 0/1/2 times, missing and uncompilable modules (caught, uncaught, aliased), a path with a directory, a three-module cycle. non-trivial = at least two module bodies ran, or an import failed.",
+        "every import graph over {main, a, b, c}: each of the 6 module-to-module edges, 3 self-loops and 3 edges from main independently present or absent (4096 graphs; the quick tier skips those where main imports nothing); every import inside a module sits in its own try/catch and is followed by a use; every module prints when its body runs, defines the same global names, and reads the built-ins; main reads, writes and calls through each module object, imports it again under an alias and compares identity, and probes that nothing leaked. Plus placements: import inside a function called 0/1/2 times, missing and uncompilable modules (caught, uncaught, aliased), a path with a directory, a three-module cycle. Plus exceptions that cross module frames: a module body that throws / imports a missing, an uncompilable, its importing (cycle) or a throwing module without a handler, or a function of another module that throws / fails an import / throws through its own finally; caught in the importer (main or a module) directly, through a function, or after a finally block that itself uses globals; straight after the handler the importer reads, defines and assigns its own globals and the check confirms where they landed. non-trivial = at least two module bodies ran, or an import failed.",
         json!({"modules": 4, "graphs": total}),
     );
-    report.assumptions = vec!["a module body that throws is outside the property's statement and outside the alphabet (X)".into()];
+    report.assumptions = vec!["importing a module again after its body threw is outside the property's statement and outside the alphabet (X)".into()];
     record_known(&mut report, &active, &stats.attributed);
     report.violations.extend(stats.violations);
     report
